@@ -1,460 +1,80 @@
-// xlate_set — translator tie (T) for C07: reads set/set.go of the current tree with go/parser
-// and regenerates Gallina definitions for Make, Add, AddSet, Remove, RemoveSet, Has and HasAny
-// over the map primitives of GT.SetGenPrims (mk_empty, set_put, set_del, set_has, set_len,
-// set_is_nil, set_keys).  Slice and the four codec methods are not translated (array writes
-// and library calls); they are tied by the correspondence run only.
+// xlate_set — translator tie (T) for C07 and C17: reads set/set.go of the current tree with
+// go/parser and regenerates Gallina definitions over the map / slice primitives of
+// GT.SetGenPrims (mk_empty, set_put, set_del, set_has, set_len, set_is_nil, set_keys; sl_make,
+// sl_set, sl_append, sl_len, sl_items).  The translation itself is harness/internal/setxl
+// (dialect "set"): see the package comment there for the supported Go subset (unexported
+// helper methods such as contains / allocIfNil, a map copied into a local as an alias of the
+// same map, index loops, if/else with any mix of fall-through / return / continue / break, …).
+// Anything outside the subset is rendered as UNSUPPORTED_<what>: the generated file then fails
+// to compile and the tie breaks.
 //
-// Supported subset: `x := e`, `x = e`, `*s = e`, `m[k] = setVal`, `delete(m, k)`,
-// `_, ok := m[k]`, `if [init;] c { … }` (falling through or ending in return, no else),
-// `for _, v := range slice`, `for k := range map` (the key order is the argument's key list —
-// an explicit iteration order), `return e`, `len`, `make(Set[T], n)`, `== nil`, `==`, `!`, `||`,
-// `&&`, integer literals, true/false.  Anything else is rendered as UNSUPPORTED_<what>, which
-// makes the generated file fail to compile and thereby breaks the tie.
+//	-part set    Make, Slice, Add, AddSet, Remove, RemoveSet, Has, HasAny and the functions
+//	             they call                        -> SetGen.v       (coq/ties/Tie_C07.v)
+//	-part codec  MarshalJSON, UnmarshalJSON, MarshalYAML, UnmarshalYAML and the functions they
+//	             call (Slice, Add, …); json.Marshal / json.Unmarshal / Node.Decode are Section
+//	             variables                        -> SetCodecGen.v  (coq/ties/Tie_C17.v)
 //
-//	xlate_set -src <repo>/set/set.go -out SetGen.v
+//	-part store  the functions of -part set once more, with MAP IDENTITIES: a Set value is a
+//	             reference into a heap of maps (make allocates a location, `*s = t` and `u := s`
+//	             copy the reference, writes go to the location), so storage shared between two
+//	             sets is expressible       -> SetStoreGen.v  (coq/ties/Tie_C07_store.v)
+//
+//	xlate_set -src <repo>/set/set.go [-part set|codec|store] -out SetGen.v
 package main
 
 import (
 	"flag"
 	"fmt"
-	"go/ast"
-	"go/parser"
-	"go/token"
 	"os"
-	"sort"
-	"strings"
+
+	"gtverif/internal/setxl"
 )
-
-var wanted = []string{"Make", "Add", "AddSet", "Remove", "RemoveSet", "Has", "HasAny"}
-
-type kind int
-
-const (
-	kOther kind = iota
-	kSet
-	kSlice
-)
-
-type fn struct {
-	name     string
-	recv     string
-	mutates  bool
-	params   []string
-	env      map[string]kind
-	problems []string
-	retWrap  func(string) string
-}
-
-func (f *fn) bad(what string) string {
-	f.problems = append(f.problems, what)
-	return "UNSUPPORTED_" + strings.Map(func(r rune) rune {
-		if r >= 'a' && r <= 'z' || r >= 'A' && r <= 'Z' || r >= '0' && r <= '9' {
-			return r
-		}
-		return '_'
-	}, what)
-}
-
-func typeKind(t ast.Expr) kind {
-	switch x := t.(type) {
-	case *ast.StarExpr:
-		return typeKind(x.X)
-	case *ast.Ellipsis, *ast.ArrayType:
-		return kSlice
-	case *ast.IndexExpr:
-		if id, ok := x.X.(*ast.Ident); ok && id.Name == "Set" {
-			return kSet
-		}
-	}
-	return kOther
-}
-
-func baseIdent(e ast.Expr) string {
-	switch x := e.(type) {
-	case *ast.Ident:
-		return x.Name
-	case *ast.StarExpr:
-		return baseIdent(x.X)
-	case *ast.ParenExpr:
-		return baseIdent(x.X)
-	}
-	return ""
-}
-
-func (f *fn) expr(e ast.Expr) string {
-	switch x := e.(type) {
-	case *ast.ParenExpr:
-		return f.expr(x.X)
-	case *ast.StarExpr:
-		return f.expr(x.X)
-	case *ast.Ident:
-		switch x.Name {
-		case "true", "false":
-			return x.Name
-		}
-		return "v_" + x.Name
-	case *ast.BasicLit:
-		if x.Kind == token.INT {
-			return x.Value
-		}
-		return f.bad("literal")
-	case *ast.UnaryExpr:
-		if x.Op == token.NOT {
-			return "(negb " + f.expr(x.X) + ")"
-		}
-		return f.bad("unary " + x.Op.String())
-	case *ast.BinaryExpr:
-		// x == nil on a set
-		if id, ok := x.Y.(*ast.Ident); ok && id.Name == "nil" && x.Op == token.EQL {
-			if n := baseIdent(x.X); n != "" && f.env[n] == kSet {
-				return "(set_is_nil v_" + n + ")"
-			}
-			return f.bad("nil comparison")
-		}
-		l, r := f.expr(x.X), f.expr(x.Y)
-		switch x.Op {
-		case token.EQL:
-			return "(Nat.eqb " + l + " " + r + ")"
-		case token.LSS:
-			return "(Nat.ltb " + l + " " + r + ")"
-		case token.LOR:
-			return "(orb " + l + " " + r + ")"
-		case token.LAND:
-			return "(andb " + l + " " + r + ")"
-		}
-		return f.bad("binary " + x.Op.String())
-	case *ast.CallExpr:
-		if id, ok := x.Fun.(*ast.Ident); ok {
-			switch id.Name {
-			case "len":
-				if len(x.Args) == 1 {
-					n := baseIdent(x.Args[0])
-					switch f.env[n] {
-					case kSet:
-						return "(set_len v_" + n + ")"
-					case kSlice:
-						return "(length v_" + n + ")"
-					}
-				}
-				return f.bad("len")
-			case "make":
-				if len(x.Args) >= 1 && typeKind(x.Args[0]) == kSet {
-					return "mk_empty"
-				}
-				return f.bad("make")
-			}
-		}
-		return f.bad("call")
-	}
-	return f.bad(fmt.Sprintf("expr %T", e))
-}
-
-// assigned lists the variables a statement list assigns without declaring them (including
-// sets mutated through an index assignment or delete), sorted.
-func (f *fn) assigned(list []ast.Stmt) []string {
-	set := map[string]bool{}
-	declared := map[string]bool{}
-	var walk func(n ast.Node) bool
-	walk = func(n ast.Node) bool {
-		switch s := n.(type) {
-		case *ast.AssignStmt:
-			for _, l := range s.Lhs {
-				name := ""
-				switch t := l.(type) {
-				case *ast.IndexExpr:
-					name = baseIdent(t.X)
-					if name != "" {
-						set[name] = true
-					}
-					continue
-				default:
-					name = baseIdent(l)
-				}
-				if name == "" || name == "_" {
-					continue
-				}
-				if s.Tok == token.DEFINE {
-					declared[name] = true
-				} else if !declared[name] {
-					set[name] = true
-				}
-			}
-		case *ast.ExprStmt:
-			if c, ok := s.X.(*ast.CallExpr); ok {
-				if id, ok := c.Fun.(*ast.Ident); ok && id.Name == "delete" && len(c.Args) == 2 {
-					if n := baseIdent(c.Args[0]); n != "" {
-						set[n] = true
-					}
-				}
-			}
-		}
-		return true
-	}
-	for _, s := range list {
-		ast.Inspect(s, walk)
-	}
-	out := make([]string, 0, len(set))
-	for k := range set {
-		out = append(out, k)
-	}
-	sort.Strings(out)
-	return out
-}
-
-func tuple(vars []string) string {
-	switch len(vars) {
-	case 0:
-		return "tt"
-	case 1:
-		return "v_" + vars[0]
-	}
-	parts := make([]string, len(vars))
-	for i, v := range vars {
-		parts[i] = "v_" + v
-	}
-	return "(" + strings.Join(parts, ", ") + ")"
-}
-
-func pat(vars []string) string {
-	switch len(vars) {
-	case 0:
-		return "_"
-	case 1:
-		return "v_" + vars[0]
-	}
-	return "'" + tuple(vars)
-}
-
-func returns(list []ast.Stmt) bool {
-	found := false
-	for _, s := range list {
-		ast.Inspect(s, func(n ast.Node) bool {
-			if _, ok := n.(*ast.ReturnStmt); ok {
-				found = true
-			}
-			return true
-		})
-	}
-	return found
-}
-
-func (f *fn) ret(v string) string {
-	if f.retWrap != nil {
-		return f.retWrap(v)
-	}
-	if f.mutates && f.recv != "" {
-		return "(v_" + f.recv + ", " + v + ")"
-	}
-	return v
-}
-
-// stmts renders a statement list in continuation style; k is the term for "fell off the end".
-func (f *fn) stmts(list []ast.Stmt, k string, ind string) string {
-	if len(list) == 0 {
-		return k
-	}
-	rest := func() string { return f.stmts(list[1:], k, ind) }
-	switch s := list[0].(type) {
-	case *ast.AssignStmt:
-		// _, ok := m[k]
-		if len(s.Lhs) == 2 && len(s.Rhs) == 1 {
-			ix, isIx := s.Rhs[0].(*ast.IndexExpr)
-			okv, isId := s.Lhs[1].(*ast.Ident)
-			if blank, ok := s.Lhs[0].(*ast.Ident); ok && blank.Name == "_" && isIx && isId && s.Tok == token.DEFINE {
-				m := baseIdent(ix.X)
-				if f.env[m] == kSet {
-					return "let v_" + okv.Name + " := set_has eqb v_" + m + " " + f.expr(ix.Index) + " in\n" + ind + rest()
-				}
-			}
-			return f.bad("two-value assign")
-		}
-		if len(s.Lhs) != 1 || len(s.Rhs) != 1 {
-			return f.bad("multi-assign")
-		}
-		// m[k] = setVal
-		if ix, ok := s.Lhs[0].(*ast.IndexExpr); ok {
-			m := baseIdent(ix.X)
-			if id, ok := s.Rhs[0].(*ast.Ident); ok && id.Name == "setVal" && f.env[m] == kSet && s.Tok == token.ASSIGN {
-				return "let v_" + m + " := set_put eqb v_" + m + " " + f.expr(ix.Index) + " in\n" + ind + rest()
-			}
-			return f.bad("index assign")
-		}
-		name := baseIdent(s.Lhs[0])
-		if name == "" || (s.Tok != token.DEFINE && s.Tok != token.ASSIGN) {
-			return f.bad("assign")
-		}
-		if s.Tok == token.DEFINE {
-			if c, ok := s.Rhs[0].(*ast.CallExpr); ok {
-				if id, ok := c.Fun.(*ast.Ident); ok && id.Name == "make" && len(c.Args) >= 1 {
-					f.env[name] = typeKind(c.Args[0])
-				}
-			}
-		}
-		return "let v_" + name + " := " + f.expr(s.Rhs[0]) + " in\n" + ind + rest()
-	case *ast.ExprStmt:
-		if c, ok := s.X.(*ast.CallExpr); ok {
-			if id, ok := c.Fun.(*ast.Ident); ok && id.Name == "delete" && len(c.Args) == 2 {
-				m := baseIdent(c.Args[0])
-				if f.env[m] == kSet {
-					return "let v_" + m + " := set_del eqb v_" + m + " " + f.expr(c.Args[1]) + " in\n" + ind + rest()
-				}
-			}
-		}
-		return f.bad("expression statement")
-	case *ast.ReturnStmt:
-		if len(s.Results) != 1 {
-			return f.bad("return arity")
-		}
-		return f.ret(f.expr(s.Results[0]))
-	case *ast.IfStmt:
-		if s.Else != nil {
-			return f.bad("if/else")
-		}
-		pre := ""
-		if s.Init != nil {
-			pre = f.stmts([]ast.Stmt{s.Init}, "INIT_END", ind)
-			if !strings.HasSuffix(pre, "INIT_END") {
-				return f.bad("if init")
-			}
-			pre = strings.TrimSuffix(pre, "INIT_END")
-		}
-		cond := f.expr(s.Cond)
-		if returns(s.Body.List) {
-			then := f.stmts(s.Body.List, "FALLS_THROUGH", ind+"  ")
-			if strings.Contains(then, "FALLS_THROUGH") {
-				return f.bad("if body that may fall through after a return")
-			}
-			return pre + "if " + cond + " then " + then + "\n" + ind + "else " + rest()
-		}
-		vars := f.assigned(s.Body.List)
-		then := f.stmts(s.Body.List, tuple(vars), ind+"  ")
-		return pre + "let " + pat(vars) + " := (if " + cond + " then " + then + " else " + tuple(vars) + ") in\n" + ind + rest()
-	case *ast.RangeStmt:
-		var loopVar string
-		xs := ""
-		src := baseIdent(s.X)
-		switch f.env[src] {
-		case kSlice:
-			if id, ok := s.Key.(*ast.Ident); !ok || id.Name != "_" || s.Value == nil {
-				return f.bad("slice range form")
-			}
-			loopVar = baseIdent(s.Value)
-			xs = "v_" + src
-		case kSet:
-			if s.Value != nil || s.Key == nil {
-				return f.bad("map range form")
-			}
-			loopVar = baseIdent(s.Key)
-			xs = "(set_keys v_" + src + ")"
-		default:
-			return f.bad("range over unknown")
-		}
-		vars := f.assigned(s.Body.List)
-		if !returns(s.Body.List) {
-			body := f.stmts(s.Body.List, tuple(vars), ind+"    ")
-			return "let " + pat(vars) + " := fold_left (fun " + pat(vars) + " v_" + loopVar + " =>\n" + ind + "    " + body +
-				") " + xs + " " + tuple(vars) + " in\n" + ind + rest()
-		}
-		saved := f.retWrap
-		f.retWrap = func(v string) string { return "(" + tuple(vars) + ", Some " + v + ")" }
-		body := f.stmts(s.Body.List, "("+tuple(vars)+", None)", ind+"      ")
-		f.retWrap = saved
-		acc := strings.TrimPrefix(pat(vars), "'")
-		return "let '(" + acc + ", early) := fold_left (fun '(" + acc + ", early) v_" + loopVar + " =>\n" +
-			ind + "    match early with Some _ => (" + tuple(vars) + ", early) | None =>\n" + ind + "      " + body + " end) " +
-			xs + " (" + tuple(vars) + ", None) in\n" + ind + "match early with Some r => " + f.ret("r") + " | None =>\n" + ind + rest() + " end"
-	}
-	return f.bad(fmt.Sprintf("stmt %T", list[0]))
-}
-
-func mutatesRecv(body *ast.BlockStmt, recv string) bool {
-	found := false
-	ast.Inspect(body, func(n ast.Node) bool {
-		switch s := n.(type) {
-		case *ast.AssignStmt:
-			for _, l := range s.Lhs {
-				if ix, ok := l.(*ast.IndexExpr); ok && baseIdent(ix.X) == recv {
-					found = true
-				}
-				if st, ok := l.(*ast.StarExpr); ok && baseIdent(st.X) == recv {
-					found = true
-				}
-			}
-		case *ast.CallExpr:
-			if id, ok := s.Fun.(*ast.Ident); ok && id.Name == "delete" && len(s.Args) == 2 && baseIdent(s.Args[0]) == recv {
-				found = true
-			}
-		}
-		return true
-	})
-	return found
-}
 
 func main() {
 	src := flag.String("src", "", "path of set.go")
 	out := flag.String("out", "SetGen.v", "output file")
+	part := flag.String("part", "set", "set|codec|store")
 	flag.Parse()
-	fset := token.NewFileSet()
-	file, err := parser.ParseFile(fset, *src, nil, 0)
+	cfg := setxl.Config{
+		Dialect: "set",
+		Indent:  "  ",
+		DefAttr: "#[using=\"All\"] ", // every definition takes all Section variables, whether it uses them or not
+		Header: "From Coq Require Import List Bool Arith.\nImport ListNotations.\n" +
+			"From GT Require Import Base.SetLoopTie SetModel SetGenPrims.\n\n" +
+			"Section SetGen.\n  Variable T : Type.\n  Variable eqb : T -> T -> bool.\n  Variable zero : T.\n",
+		Footer: "End SetGen.\n",
+	}
+	switch *part {
+	case "set":
+		cfg.Roots = []string{"Make", "Slice", "Add", "AddSet", "Remove", "RemoveSet", "Has", "HasAny"}
+		cfg.Header += "\n"
+	case "store":
+		cfg.Dialect = "store"
+		cfg.Roots = []string{"Make", "Slice", "Add", "AddSet", "Remove", "RemoveSet", "Has", "HasAny"}
+		cfg.Header = "From Coq Require Import List Bool Arith.\nImport ListNotations.\n" +
+			"From GT Require Import Base.SetLoopTie SetModel SetGenPrims SetHeapPrims.\n\n" +
+			"Section SetGen.\n  Variable T : Type.\n  Variable eqb : T -> T -> bool.\n  Variable zero : T.\n\n"
+	case "codec":
+		cfg.Roots = []string{"MarshalJSON", "UnmarshalJSON", "MarshalYAML", "UnmarshalYAML"}
+		cfg.Header += "  (* the library: json.Marshal of a []T, json.Unmarshal / yaml Node.Decode INTO a []T variable *)\n" +
+			"  Variable jbytes ynode jresult : Type.\n" +
+			"  Variable lib_json_Marshal : option (list T) -> jresult.\n" +
+			"  Variable lib_json_Unmarshal : jbytes -> option (list T) -> option (list T) * bool.\n" +
+			"  Variable lib_yaml_Decode : ynode -> option (list T) -> option (list T) * bool.\n\n"
+	default:
+		fmt.Fprintln(os.Stderr, "unknown part", *part)
+		os.Exit(2)
+	}
+	res, err := setxl.Translate(*src, cfg)
 	if err != nil {
 		fmt.Fprintln(os.Stderr, err)
 		os.Exit(2)
 	}
-	decls := map[string]*ast.FuncDecl{}
-	for _, d := range file.Decls {
-		if fd, ok := d.(*ast.FuncDecl); ok && fd.Body != nil {
-			decls[fd.Name.Name] = fd
-		}
-	}
-	var b strings.Builder
-	b.WriteString("(* GENERATED by harness/cmd/xlate_set from set/set.go of the current tree — do not edit *)\n")
-	b.WriteString("From Coq Require Import List Bool Arith.\nImport ListNotations.\nFrom GT Require Import SetModel SetGenPrims.\n\n")
-	b.WriteString("Section SetGen.\n  Variable T : Type.\n  Variable eqb : T -> T -> bool.\n\n")
-	var problems []string
-	for _, name := range wanted {
-		fd, ok := decls[name]
-		if !ok {
-			b.WriteString("  Definition gen_" + name + " := UNSUPPORTED_function_" + name + "_not_found.\n\n")
-			problems = append(problems, name+": not found")
-			continue
-		}
-		f := &fn{name: name, env: map[string]kind{}}
-		sig := "  Definition gen_" + name
-		if fd.Recv != nil && len(fd.Recv.List) == 1 && len(fd.Recv.List[0].Names) == 1 {
-			f.recv = fd.Recv.List[0].Names[0].Name
-			f.env[f.recv] = kSet
-			f.mutates = mutatesRecv(fd.Body, f.recv)
-			sig += " (v_" + f.recv + " : sset T)"
-		}
-		for _, p := range fd.Type.Params.List {
-			k := typeKind(p.Type)
-			for _, n := range p.Names {
-				f.env[n.Name] = k
-				switch k {
-				case kSet:
-					sig += " (v_" + n.Name + " : sset T)"
-				case kSlice:
-					sig += " (v_" + n.Name + " : list T)"
-				default:
-					sig += " (v_" + n.Name + " : UNSUPPORTED_param_type)"
-				}
-			}
-		}
-		body := f.stmts(fd.Body.List, "MISSING_RETURN", "    ")
-		if strings.Contains(body, "MISSING_RETURN") {
-			body = strings.ReplaceAll(body, "MISSING_RETURN", f.bad("missing return"))
-		}
-		b.WriteString(sig + " :=\n    " + body + ".\n\n")
-		for _, p := range f.problems {
-			problems = append(problems, name+": "+p)
-		}
-	}
-	b.WriteString("End SetGen.\n(* functions translated: " + strings.Join(wanted, ", ") + "; not translated: Slice, MarshalJSON, UnmarshalJSON, MarshalYAML, UnmarshalYAML *)\n")
-	if err := os.WriteFile(*out, []byte(b.String()), 0o644); err != nil {
+	if err := os.WriteFile(*out, []byte(res.Text), 0o644); err != nil {
 		fmt.Fprintln(os.Stderr, err)
 		os.Exit(2)
 	}
-	for _, p := range problems {
+	for _, p := range res.Problems {
 		fmt.Println("unsupported:", p)
 	}
 }
